@@ -90,6 +90,16 @@ class VDict:
         return '{%s}' % ', '.join('%r: %s' % (k, vrepr(v)) for k, v in self.d.items())
 
 
+class MemoHit(Exception):
+    def __init__(self, key):
+        self.key = key
+
+
+class MemoProbe(VDict):
+    """Stands in for a module-level memo dict: the first lookup/membership test stops execution and reports the key."""
+    pass
+
+
 class VObj:
     """A mutable record with concrete attribute names (e.g. a module-level object we track)."""
     def __init__(self, name, **attrs):
@@ -553,7 +563,7 @@ class Executor:
     def st_AugAssign(self, st, env, mod):
         cur = self.eval(_load(st.target), env, mod)
         v = self.eval(st.value, env, mod)
-        if isinstance(cur, VList) and isinstance(st.op, ast.Add):
+        if isinstance(cur, VList) and cur.kind == 'list' and isinstance(st.op, ast.Add):
             cur.items.extend(self.iterate(v))
             self._mutated(cur, 'extend')
             return
@@ -732,6 +742,9 @@ class Executor:
         self.ctx.log.append(('mutate', obj, how, getattr(obj, 'owner', None)))
 
     def setitem(self, obj, k, v):
+        if getattr(self, 'setitem_hook', None) is not None:
+            if self.setitem_hook(self, obj, k, v) is True:
+                return
         if isinstance(obj, VList):
             if isinstance(k, int):
                 if not -len(obj.items) <= k < len(obj.items):
@@ -1058,6 +1071,10 @@ class Executor:
             if isinstance(a, str) and isinstance(b, str):
                 return {'Lt': a < b, 'LtE': a <= b, 'Gt': a > b, 'GtE': a >= b}[name]
             raise PyRaise('TypeError', 'comparison of %s and %s' % (vrepr(a), vrepr(b)))
+        if (isinstance(a, VList) and a.kind == 'ndarray' and is_scalar(b)) or (isinstance(b, VList) and b.kind == 'ndarray' and is_scalar(a)):
+            if isinstance(a, VList):
+                return VList([self.compare(op, x, b) for x in a.items], 'ndarray')
+            return VList([self.compare(op, a, y) for y in b.items], 'ndarray')
         if isinstance(a, (tuple, VList)) or isinstance(b, (tuple, VList)):
             if name in ('Eq', 'NotEq'):
                 ai = a.items if isinstance(a, VList) else a
@@ -1091,6 +1108,8 @@ class Executor:
         return {'Lt': az < bz, 'LtE': az <= bz, 'Gt': az > bz, 'GtE': az >= bz}[name]
 
     def contains(self, container, item):
+        if isinstance(container, MemoProbe):
+            raise MemoHit(item)
         if isinstance(container, VDict):
             if isinstance(item, (Tm, z3.ExprRef)):
                 raise Unsupported('symbolic key membership')
@@ -1317,6 +1336,8 @@ class Executor:
                 except IndexError:
                     raise PyRaise('IndexError', 'fancy index out of range')
             raise Unsupported('index %s of list' % vrepr(k))
+        if isinstance(obj, MemoProbe):
+            raise MemoHit(k)
         if isinstance(obj, VDict):
             if isinstance(k, (Tm, z3.ExprRef)):
                 raise Unsupported('symbolic dict key')
@@ -1461,7 +1482,12 @@ class Executor:
                 return PyFn(lambda x: x if is_scalar(exact(x)) else Tm('call:numpy.float64', x), 'numpy.' + name)
             if name == 'isscalar':
                 return PyFn(lambda x: is_scalar(x), 'numpy.isscalar')
-            if name == 'asarray' or name == 'array' or name == 'atleast_1d':
+            if name in ('isnan', 'isinf'):
+                # reals are never NaN / infinite (floats as reals)
+                return PyFn(lambda x, _n=name: False if is_scalar(exact(x)) else Tm('call:lib:numpy.' + _n, x), 'numpy.' + name)
+            if name == 'atleast_1d':
+                return PyFn(lambda x: VList([x], 'ndarray') if is_scalar(exact(x)) else self.np_array(x), 'numpy.atleast_1d')
+            if name == 'asarray' or name == 'array':
                 return PyFn(lambda x, *a, **k: self.np_array(x, **k), 'numpy.' + name)
             if name == 'any':
                 return PyFn(lambda x: self.np_any(x), 'numpy.any')
@@ -1473,6 +1499,17 @@ class Executor:
                 return PyFn(lambda x, *a, **k: self.np_sum(x, *a, **k), 'numpy.sum')
             if name in ('minimum', 'maximum'):
                 return PyFn(lambda a, b, _n=name: self.minmax(_n[:3], [a, b]), 'numpy.' + name)
+        if modname in ('numpy.random', 'np.random') and name == 'uniform':
+            def uniform(low=0, high=1, size=None):
+                if not isinstance(size, int) or low != 0 or high != 1:
+                    return Tm('call:numpy.random.uniform', low, high, size)
+                out = []
+                for i in range(size):
+                    u = self.ctx.fresh('u')
+                    self.ctx.pc += [u >= 0, u < 1]
+                    out.append(u)
+                return VList(out, 'ndarray')
+            return PyFn(uniform, 'numpy.random.uniform')
         if root == 'functools' and name == 'partial':
             def partial(f, *a, **k):
                 return PyFn(lambda ex, *a2, **k2: ex.call(f, list(a) + list(a2), dict(k, **k2)), 'partial', wants_ex=True)
@@ -1550,6 +1587,16 @@ class Executor:
 
     def minmax(self, which, vals):
         vals = [exact(v) for v in vals]
+        if len(vals) == 2 and any(isinstance(v, VList) for v in vals):
+            a, b = vals
+            if isinstance(a, VList) and isinstance(b, VList):
+                if len(a.items) != len(b.items):
+                    raise PyRaise('ValueError', 'shape mismatch')
+                return VList([self.minmax(which, [x, y]) for x, y in zip(a.items, b.items)], 'ndarray')
+            if isinstance(a, VList) and not isinstance(b, Tm):
+                return VList([self.minmax(which, [x, b]) for x in a.items], 'ndarray')
+            if isinstance(b, VList) and not isinstance(a, Tm):
+                return VList([self.minmax(which, [a, y]) for y in b.items], 'ndarray')
         if any(isinstance(v, Tm) for v in vals):
             return Tm('call:' + which, *vals)
         if all(is_num(v) for v in vals):
